@@ -197,6 +197,7 @@ func runC17(c *Ctx) {
 	pairs := messagePairs(p)
 	c.R.Count("message pairs", len(pairs))
 	c.R.Floor(rule, cfg, len(pairs), 9)
+	ruleEncodersPure(c, p, "C17.encode-pure")
 	ruleShapePairs(c, p, rule, pairs, false)
 
 	ruleGates(c, p, pairs, "C17.gates")
